@@ -138,6 +138,8 @@ for name, inst in [
 H("kani-slice", "strings::str_validity_model_equals_core", ["C09"], stubbing=True, bounds="every byte string of length <= 4", inst="scalar UTF-8 validator == core::str::from_utf8(..).is_ok()", unwind=10, timeout_s=1200, mem_gb=4, note=SL_STUBS)
 H("kani-slice", "strings::panic_str_bad_index_core", ["C09"], tier="thorough", kind="must_panic", expect_fail=[r"assert_char_boundary|slice_error_fail|str::|remove|slice_index|slice_end|slice_start|panic"], stubbing=True, bounds=STB,
   inst="as panic_str_bad_index with core validity", unwind=10, timeout_s=3600, mem_gb=8, note=SL_STUBS)
+H("kani-slice", "strings::str_split_off_interior", ["C09", "C16"], stubbing=True, bounds="every interior non-empty range of every length <= 6 (20 concrete shapes), 6 symbolic ASCII bytes; unwind 10", inst="FixedBumpString::split_off(s..e), real std rotate", unwind=10, timeout_s=2400, mem_gb=12, note=SL_STUBS)
+H("kani-slice", "strings::boxstr_split_off_interior", ["C09", "C16"], tier="thorough", stubbing=True, bounds="every interior non-empty range of every length <= 6 (20 concrete shapes), 6 symbolic ASCII bytes; unwind 10", inst="BumpBox<str>::split_off(s..e), real std rotate", unwind=10, timeout_s=2400, mem_gb=12, note=SL_STUBS)
 H("kani-slice", "strings::mustfail_str_range", ["C09", "C16"], kind="must_panic", expect_fail=[r"assert_char_boundary|slice_error_fail|slice_index_order_fail|slice_end_index_len_fail|slice_start_index_len_fail"], stubbing=True, bounds=STB,
   inst="FixedBumpString::split_off / BumpBox<str>::split_off / drain with every range that is reversed, out of bounds or has an end inside a multi-byte char (empty ranges included)", unwind=10, timeout_s=1200, mem_gb=4, note=SL_STUBS)
 H("kani-slice", "strings::panic_str_bad_index", ["C09"], kind="must_panic", expect_fail=[r"assert_char_boundary|slice_error_fail|str::|remove|slice_index|slice_end|slice_start|panic"], stubbing=True, bounds=STB,
@@ -491,8 +493,8 @@ for name, props, inst, tags, tier in [
     ("bvec_reserve_down1_newest", ["C08", "C07", "C13"], "same, down", [], "thorough"),
     ("bvec_reserve_up4_blocked", ["C08", "C07", "C13"], "same, up, MIN_ALIGN 4, blocked", ["fail"], "thorough"),
     ("bvec_extend_up1_newest", ["C08", "C07"], "try_extend_from_slice_copy(<= 3 elements), up, newest", [], "quick"),
-    ("bvec_resize_up1_newest", ["C08", "C07"], "try_resize(new_len <= 8, x), up, newest", ["fail", "resize"], "thorough"),
-    ("bvec_append_up1_newest", ["C08", "C07"], "try_append([a, b]), up, newest", ["fail"], "thorough"),
+    ("bvec_resize_up1_newest", ["C08", "C07"], "try_resize(new_len <= 6, x), up, newest", ["resize"], "thorough"),
+    ("bvec_append_up1_newest", ["C08", "C07"], "try_append([a, b]), up, newest", [], "thorough"),
     ("bvec_extend_down1_blocked", ["C08", "C07"], "try_extend_from_slice_copy, down, blocked", ["fail"], "thorough"),
     ("bvec_resize_down1_blocked", ["C08", "C07"], "try_resize, down, blocked", ["fail", "resize"], "thorough"),
     ("bvec_shrink_up1_newest", ["C08", "C10", "C13", "C01", "C02"], "shrink_to_fit / shrink_to(any m) / into_boxed_slice / into_fixed_vec, up, newest", ["reclaim"], "quick"),
@@ -515,7 +517,7 @@ for name, props, inst, tags, tier in [
     ("bvec_splice_exact_fit_down1", ["C08"], "same, down", [], "thorough"),
 ]:
     A("bvec", name, props, inst, tags=tags, tier=tier, mem_gb=(20 if "split" in name else 10), timeout_s=(2400 if "split" in name else 1800), bounds=BVB)
-    HARNESSES[-1]["unwind"] = 6 if ("into_iter" in name or "splice" in name) else (5 if ("shrink" in name or "drops" in name) else 3)
+    HARNESSES[-1]["unwind"] = 6 if ("into_iter" in name or "splice" in name) else (8 if "resize" in name else (5 if ("shrink" in name or "drops" in name) else 3))
 
 # slice-level typed entry points (C10 position clause, C13 opt-out, C17 typed vs dyn, C01/C02 for shrink_slice)
 for name, props, inst, tags, tier in [
